@@ -28,6 +28,7 @@ impl Compiler {
             sym_same(final(self).symbols, old(self).symbols), final(self).loop_contexts == old(self).loop_contexts, gen_inv(*final(self)),
             r is Ok ==> gen_post(*old(self), *final(self), true),
     {
+//@GHOST before_all="self.emit_opcode(opcode);" proof { if symbol.scope == Scope::Local { lemma_local_symbol_is_current(self.symbols, name@); if self.locals_bound@ < symbol.index as int + 1 { self.locals_bound = Ghost(symbol.index as int + 1); } } }
 //@ARM file=compiler.rs fn=compile_expression impl=Compiler arm="Expr::Identifier" rules="R1;R4"
         proof {
             let n = old(self).instructions@.len() as int;
@@ -60,6 +61,7 @@ impl Compiler {
     {
 //@GHOST before="self.compile_expression(value)?;" let ghost s0 = *self;
 //@GHOST after="self.compile_expression(value)?;" let ghost s1 = *self;
+//@GHOST before_all="self.emit_opcode(op);" proof { if symbol.scope == Scope::Local && self.locals_bound@ < symbol.index as int + 1 { self.locals_bound = Ghost(symbol.index as int + 1); } }
 //@ARM file=compiler.rs fn=compile_statement impl=Compiler arm="Stmt::Let" rules="R1;R4"
         proof {
             let n = s1.instructions@.len() as int;
@@ -110,6 +112,7 @@ impl Compiler {
 //@GHOST after="self.emit_opcode(OpCode::IndexSet);" proof { lemma_gen_post_trans(*old(self), t1, t2, true, true); lemma_gen_post_trans(*old(self), t2, t3, true, true); assert(self.instructions@ =~= t3.instructions@ + seq![opcode_byte(OpCode::IndexSet)]); lemma_gen_post_append(t3, *self, seq![opcode_byte(OpCode::IndexSet)]); lemma_gen_post_trans(*old(self), t3, *self, true, true); }
 //@GHOST before="let name = match &**left {" let ghost mut u1 = *self;
 //@GHOST before="match symbol.scope {" proof { u1 = *self; }
+//@GHOST before_all="self.emit_opcode(OpCode::SetLocal);" proof { if symbol.scope == Scope::Local { lemma_local_symbol_is_current(self.symbols, name@); if self.locals_bound@ < symbol.index as int + 1 { self.locals_bound = Ghost(symbol.index as int + 1); } } }
 //@ARM file=compiler.rs fn=compile_expression impl=Compiler arm="Expr::Assign" rules="R1;R4"
         proof {
             // the identifier path (the element path returned above): right-hand side, then store + load = 6 bytes
